@@ -32,7 +32,9 @@ mod cert {
 }
 
 use std::io::BufReader;
-use std::sync::{Arc, Mutex as StdMutex, RwLock};
+use std::sync::{Arc, Mutex as StdMutex};
+
+use shuttle::sync::RwLock;
 
 use serde_derive::{Deserialize, Serialize};
 use serde_json::{json, Map, Value};
@@ -83,6 +85,14 @@ pub enum Mut {
     WrongStep { send: usize },
     UnknownClientId,
     NoParameters,
+    /// the `parameters` member as a whole replaced by a non-object value
+    SetParams(Value),
+    /// the canonical request of this step sent twice in one write on the same connection: the
+    /// second copy is a step out of order
+    Duplicate,
+    /// the canonical request of this step sent at the same time on `n` connections under the same
+    /// client id: all but one are steps out of order
+    Race { n: usize },
 }
 
 #[derive(Clone, Debug, Serialize, Deserialize, PartialEq)]
@@ -113,6 +123,8 @@ pub struct DevObs {
     pub replies: Vec<Value>,
     pub ended: bool,
     pub prefix_failed: Option<String>,
+    /// Duplicate / Race: the final reply of every copy
+    pub copies: Vec<Option<Value>>,
 }
 
 #[derive(Default)]
@@ -293,7 +305,10 @@ fn apply(req: &mut Value, m: &Mut) {
         Mut::NoParameters => {
             req.as_object_mut().unwrap().remove("parameters");
         }
-        Mut::WrongStep { .. } => {}
+        Mut::SetParams(v) => {
+            req.as_object_mut().unwrap().insert("parameters".into(), v.clone());
+        }
+        Mut::WrongStep { .. } | Mut::Duplicate | Mut::Race { .. } => {}
     }
 }
 
@@ -391,11 +406,53 @@ pub fn run_q(case: &QCase) -> (SimEnd, crate::sched::SimStats, QObs) {
                     };
                     apply(&mut req, &d.m);
                     let silent_ok = req.get("oneway") == Some(&json!(true));
-                    let (replies, ended) = raw.call(&req, silent_ok);
-                    ob.reached = true;
-                    ob.request = req;
-                    ob.replies = replies;
-                    ob.ended = ended;
+                    match &d.m {
+                        Mut::Duplicate | Mut::Race { .. } => {
+                            let mut b = serde_json::to_vec(&req).unwrap();
+                            b.push(0);
+                            let mut conns = vec![id];
+                            if let Mut::Race { n } = &d.m {
+                                for _ in 1..*n {
+                                    conns.push(net.connect(ConnOpts::default()));
+                                }
+                                for cid in &conns {
+                                    net.client_send(*cid, &b);
+                                }
+                            } else {
+                                let mut two = b.clone();
+                                two.extend_from_slice(&b);
+                                net.client_send(id, &two);
+                            }
+                            wait_quiescent(&ctl);
+                            let copies_per_conn = if matches!(d.m, Mut::Duplicate) { 2 } else { 1 };
+                            for (ci, cid) in conns.iter().enumerate() {
+                                net.client_drain(*cid);
+                                let w = net.lock();
+                                let from = if ci == 0 { raw.consumed } else { 0 };
+                                let (frames, _) = split_nul(&w.conns[*cid].client_rx[from..]);
+                                let finals: Vec<Value> = frames
+                                    .iter()
+                                    .filter_map(|f| serde_json::from_slice::<Value>(f).ok())
+                                    .filter(|f| f.get("continues") != Some(&json!(true)))
+                                    .collect();
+                                for k in 0..copies_per_conn {
+                                    ob.copies.push(finals.get(k).cloned());
+                                }
+                            }
+                            for cid in conns.iter().skip(1) {
+                                net.client_half_close(*cid);
+                            }
+                            ob.reached = true;
+                            ob.request = req;
+                        }
+                        _ => {
+                            let (replies, ended) = raw.call(&req, silent_ok);
+                            ob.reached = true;
+                            ob.request = req;
+                            ob.replies = replies;
+                            ob.ended = ended;
+                        }
+                    }
                 }
             }
             net.client_half_close(id);
@@ -511,6 +568,31 @@ pub fn judge_q(case: &QCase, end: &SimEnd, o: &QObs) -> (Vec<Violation>, bool) {
         }
         if !ob.reached {
             inconclusive = true;
+            continue;
+        }
+        if matches!(d.m, Mut::Duplicate | Mut::Race { .. }) {
+            // Test11 is oneway: no copy is answered at all
+            let passed = ob.copies.iter().filter(|c| matches!(c, Some(r) if r.get("error").is_none())).count();
+            if passed > 1 {
+                v.push(viol(
+                    "C19",
+                    "step-passed-twice",
+                    format!(
+                        "step {} {:?}: {} copies of the same request for one client id were answered without an error: {:?}",
+                        STEPS[d.step],
+                        d.m,
+                        passed,
+                        ob.copies.iter().map(|c| c.as_ref().map(|r| r.to_string().chars().take(80).collect::<String>())).collect::<Vec<_>>()
+                    ),
+                ));
+            }
+            for r in ob.copies.iter().flatten() {
+                if let Some(e) = r.get("error").and_then(|e| e.as_str()) {
+                    if !OK_ERRORS.contains(&e) {
+                        v.push(viol("C19", "unexpected-error-kind", format!("step {} {:?} answered with error {}", STEPS[d.step], d.m, e)));
+                    }
+                }
+            }
             continue;
         }
         for r in &ob.replies {
@@ -703,6 +785,18 @@ pub fn deviation_space(canon_params: &[Value]) -> Vec<Deviation> {
                 }
             }
         }
+        // `parameters` as a whole is not an object
+        for val in [json!([]), json!([{}]), json!("s"), json!(5), json!(true)] {
+            v.push(Deviation { step, m: Mut::SetParams(val) });
+        }
+        // the same step more than once under one client id
+        // (End leaves the client at End: repeating it is the service's design, not a deviation)
+        if step > 0 && step != 11 && step != 12 {
+            v.push(Deviation { step, m: Mut::Duplicate });
+            for n in [2usize, 3, 5] {
+                v.push(Deviation { step, m: Mut::Race { n } });
+            }
+        }
         // call modes
         let canon = canonical_flags(step);
         for bits in 0..8u8 {
@@ -780,6 +874,27 @@ pub fn c19_plan(tier: Tier) -> Plan {
         });
     }
     {
+        // schedule-dependent deviations get many schedules each
+        let races: Vec<Deviation> = devs.iter().filter(|d| matches!(d.m, Mut::Race { .. } | Mut::Duplicate)).cloned().collect();
+        let seeds: u64 = if tier == Tier::Quick { 12 } else { 300 };
+        spaces.push(Space {
+            name: "Q.strict.same-step-races",
+            size: races.len() as u64 * seeds,
+            exhaustive: false,
+            gen: Box::new(move |idx, seed| {
+                let mut rng = Rng::new(seed);
+                let d = races[(idx / seeds) as usize].clone();
+                Case::Q(QCase {
+                    canonical: if rng.chance(1, 4) { 1 } else { 0 },
+                    deviants: vec![d],
+                    interleave: rng.chance(1, 2),
+                    coarse_clock: false,
+                    sched: SchedCfg::random(&mut rng, 1),
+                })
+            }),
+        });
+    }
+    {
         // fault-injecting configuration: a monotonic clock with millisecond granularity
         let n = if tier == Tier::Quick { 200 } else { 6_000 };
         spaces.push(Space {
@@ -804,7 +919,7 @@ pub fn c19_plan(tier: Tier) -> Plan {
     }
     Plan {
         spaces,
-        rule: format!("Q: the real certification service behind the real listen loop on the simulated network. Strictness: {} single deviations = for every step Start..End: every scalar leaf of its canonical parameters changed / retyped / removed, every member removed, array shortened, unknown / missing / ill-typed client id, no parameters; every wrong combination of more / oneway / upgrade; every other step's canonical request sent at this position - each after the canonical prefix on a raw connection (complete enumeration; canonical parameters are taken from a raw canonical walk against the service itself, mutations that deserialize to the same typed value are excluded by construction). Concurrency: 1..16 real canonical clients (run_client + generated stubs) with scheduler-interleaved steps; mixed runs with deviating raw clients beside canonical ones. Oracle: a deviating request is answered with CertificationError / ClientIdError / InvalidParameter, or not at all, never without an error; every canonical client returns Ok; issued client ids are pairwise distinct.", ndev),
+        rule: format!("Q: the real certification service behind the real listen loop on the simulated network. Strictness: {} single deviations = for every step Start..End: every scalar leaf of its canonical parameters changed / retyped / removed, every member removed, array shortened, unknown / missing / ill-typed client id, no parameters; the parameters member replaced by a non-object; every wrong combination of more / oneway / upgrade; every other step's canonical request sent at this position; the step's own request sent twice in one write, and at the same time on 2 / 3 / 5 connections under one client id (many seeded schedules each) - each after the canonical prefix on a raw connection (complete enumeration; canonical parameters are taken from a raw canonical walk against the service itself, mutations that deserialize to the same typed value are excluded by construction). Concurrency: 1..16 real canonical clients (run_client + generated stubs) with scheduler-interleaved steps; mixed runs with deviating raw clients beside canonical ones. Oracle: a deviating request is answered with CertificationError / ClientIdError / InvalidParameter, or not at all, never without an error; every canonical client returns Ok; issued client ids are pairwise distinct.", ndev),
         level: "exploration",
         real: vec![
             "varlink-certification/src/main.rs: run_server, CertInterface, ClientIds, check_call_* macros, run_client (included verbatim)",
@@ -819,6 +934,7 @@ pub fn c19_plan(tier: Tier) -> Plan {
         assumptions: vec![
             "an extra unknown member, or a JSON number written differently but equal as the typed value, is not a deviation".into(),
             "Start sent again later is a new run, not a deviation".into(),
+            "End leaves a client id at step End by design: End repeated is not counted as a deviation".into(),
         ],
     }
 }
